@@ -8,7 +8,7 @@ from .tolslab import _dist2_seg
 
 LEVEL = 'proof'
 PID = 'C04'
-WEIGHTS = {'rect': 0.2, 'oct': 0.3, 'share': 0.15, 'lat': 0.1, 'gp': 0.2, 'degen': 0.05, 'boxes': 0.12, 'sliver': 0.05, 'straddle': 0.05, 'punch': 0.2, 'abut': 0.1, 'tjo': 0.08, 'selfop': 0.12, 'vtj': 0.15}
+WEIGHTS = {'rect': 0.2, 'oct': 0.3, 'share': 0.15, 'lat': 0.1, 'gp': 0.2, 'degen': 0.05, 'boxes': 0.12, 'sliver': 0.05, 'straddle': 0.05, 'punch': 0.3, 'abut': 0.1, 'tjo': 0.08, 'selfop': 0.12, 'vtj': 0.15}
 
 
 def boxes_disjoint(c):
